@@ -162,12 +162,19 @@ def r_release_scrubbed(body):
 
 def r_scan(body):
     out = {}
-    for n in _calls(body, "DiskIO::retire_extents"):
+    # the vector handed to remove_expired_recovery_winners collects the expired winners; the other vector that reaches
+    # retire_extents collects the stale duplicates found by the scan
+    exp = None
+    for n in _calls(body, "FeoxStore::remove_expired_recovery_winners"):
+        exp = recv_local(body, n, 3)
+    for n in sorted(_calls(body, "DiskIO::retire_extents"), key=lambda x: x.id):
         l = recv_local(body, n, 1)
-        if l is not None:
+        if l is None:
+            continue
+        if l == exp and "retired_extents" in out:
+            out["expired_extents"] = l
+        elif "retired_extents" not in out:
             out["retired_extents"] = l
-    for n in _calls(body, "DiskIO::read_allocation_journal"):
-        pass
     for n in _calls(body, "DiskIO::replay_allocation_journal"):
         l = recv_local(body, n, 1)
         if l is not None:
